@@ -35,6 +35,9 @@ type sessAction struct {
 	Ts  int64  `json:"ts"`
 	D   int64  `json:"d"`
 	Now int64  `json:"now"`
+	// Final marks the deliveries appended to a counterexample of the design: a good copy of every packet, so that a state
+	// in which the model says "this packet would be wrongly refused / accepted" shows on the real unpacker.
+	Final bool `json:"-"`
 }
 
 type sessParams struct {
@@ -444,6 +447,7 @@ func run(t *testing.T, res *vio.Result, in *vio.Input, prm sessParams, bi int, b
 		var lastChange time.Time
 		var haveChange bool
 		hist := func(n int) any {
+			n = min(n, len(b.Steps)-1)
 			return map[string]any{"test": "TestSession", "session": prm, "steps": b.Steps[:n+1], "seed": in.Seed, "behaviour": bi}
 		}
 		// after the first difference from the model the rest is no longer a model behaviour: it is still executed and
@@ -624,7 +628,7 @@ func run(t *testing.T, res *vio.Result, in *vio.Input, prm sessParams, bi int, b
 					a.S, a.P, diff, led.max[a.S], prm.W, got))
 			}
 			res.Seen(fmt.Sprintf("%s/%s/%s", a.N, a.K, got))
-			if got != a.Out && !o.skipBad && !drifted {
+			if got != a.Out && !o.skipBad && !drifted && !a.Final {
 				if !flagged {
 					res.DriftNote(vio.Finding{Key: "udp.session/model-drift", Behaviour: bi, Step: si, Expected: a.Out, Observed: got,
 						Text: fmt.Sprintf("%s(%s,%d,%s): model expects %q, the unpacker did %q", a.N, a.S, a.P, a.K, a.Out, got), Replay: hist(si)})
@@ -807,6 +811,28 @@ func TestSession(t *testing.T) {
 			}
 			obs[si] = parseObs(st.O)
 		}
+		if b.Cex {
+			npk := map[string]int{}
+			var order []string
+			for _, a := range acts {
+				if a.N == "Pack" {
+					if npk[a.S] == 0 {
+						order = append(order, a.S)
+					}
+					npk[a.S]++
+				}
+			}
+			for _, s := range order {
+				for p := 0; p < npk[s]; p++ {
+					n := "CliRecv"
+					if s[0] == 'c' {
+						n = "SrvRecv"
+					}
+					acts = append(acts, sessAction{N: n, S: s, P: p, K: "good", Final: true})
+					obs = append(obs, sessObs{})
+				}
+			}
+		}
 		if b.ID != 0 {
 			bi = b.ID
 		}
@@ -847,7 +873,7 @@ func TestSession(t *testing.T) {
 							Expected: twin[si].out, Observed: full[si].out,
 							Text: fmt.Sprintf("delivery of %s/%d (%s) ends %q when forged/stale/wrong-type/foreign packets were seen before and %q when they were not",
 								acts[si].S, acts[si].P, acts[si].K, full[si].out, twin[si].out),
-							Replay: map[string]any{"test": "TestSession", "session": prm, "steps": b.Steps[:si+1], "seed": in.Seed, "behaviour": bi}})
+							Replay: map[string]any{"test": "TestSession", "session": prm, "steps": b.Steps[:min(si+1, len(b.Steps))], "seed": in.Seed, "behaviour": bi}})
 						break
 					}
 				}
